@@ -175,6 +175,7 @@ func c07Exec(c *engine.Ctx, cs c07Case) {
 		t := g.MustBuild()
 		var data []byte
 		var err error
+		failGeoJSON() // two-call history: a failed encode first (see poison.go)
 		if p, stack := engine.Guard(func() { data, err = geojson.Marshal(t) }); p != nil {
 			fail("marshal-panic", fmt.Sprintf("Marshal panicked: %v\n%s", p, firstLines(stack, 10)))
 			return
